@@ -58,6 +58,10 @@ func (propC04) Gen(r *Rng, run uint64, tier string) *Plan {
 			if r.Bool(0.3) {
 				// beyond any plausible worker-pool size
 				spec.NMin, spec.NMax = 513, 560
+				if r.Bool(0.25) {
+					// more containers than a process may keep files open
+					spec.NMin, spec.NMax, spec.RecMax, spec.DupTS = 1001, 1100, 6, 0.5
+				}
 			}
 		}
 	case x < 12:
